@@ -14,7 +14,9 @@ Helper lemmas live in `TakVerif/Proofs/{Grow,Adj,Flood,Popcount,Groups,SpecReach
 Hypotheses: `RoadWF p` (size 3..8, constants = `Precompute(size)`, `White`/`Black` on the board and disjoint,
 groups = `analyze()`); proved for `New` (`new_wf`) and for every result of `FromSquares` (`fromSquares_wf`);
 for results of `Move` it is C01's invariant, evaluated here on every sampled position (op `wfb`).
-`ReservesOK p`: stones + capstones of each side ≤ 255 (the byte sums in `GameOver` do not wrap).
+The model is of the tree with fix `fixes/C02-reserve-wrap.diff` (reserves tested counter by counter): with the
+original byte sums `whiteStones+whiteCaps != 0` a configuration with stones + capstones = 256 was reported
+finished at the start position.
 -/
 namespace C02
 open Tak Spec Roads
@@ -143,30 +145,30 @@ theorem outcome_rules (s : State) :
     (outcome s).whiteFlats = flatCount s .white ∧ (outcome s).blackFlats = flatCount s .black :=
   Roads.outcome_rules s
 
-/-- **`WinDetails()` = the rule book** on every well-formed board whose reserve sums fit a byte:
+/-- **`WinDetails()` = the rule book** on every well-formed board:
 over / winner (road owner; the previous mover on a double road; flats with the tie-break flag) /
 reason / both flat counts (popcounts = counts over the squares). -/
-theorem winDetails_refines (p : Pos) (wf : RoadWF p) (hr : ReservesOK p) :
+theorem winDetails_refines (p : Pos) (wf : RoadWF p) :
     toOutcome p.winDetails = Spec.outcome (Spec.abs p) :=
-  Roads.winDetails_refines p wf hr
+  Roads.winDetails_refines p wf
 
 /-- **`GameOver()` = the rule book.** -/
-theorem gameOver_refines (p : Pos) (wf : RoadWF p) (hr : ReservesOK p) :
+theorem gameOver_refines (p : Pos) (wf : RoadWF p) :
     p.gameOver = ((Spec.outcome (Spec.abs p)).over, (Spec.outcome (Spec.abs p)).winner) :=
-  Roads.gameOver_refines p wf hr
+  Roads.gameOver_refines p wf
 
 /-- **`ptn.ResultFromGame`**: the result string is the rule book's ("R-0", "0-F", "1/2-1/2", …), and the
 call panics exactly when the rule book says the game is still running. -/
-theorem result_refines (p : Pos) (wf : RoadWF p) (hr : ReservesOK p) :
+theorem result_refines (p : Pos) (wf : RoadWF p) :
     p.resultFromGame = match Spec.result (Spec.abs p) with
       | some r => .ok r
       | none => .error (.panic "ResultFromGame: game is not over") :=
-  Roads.result_refines p wf hr
+  Roads.result_refines p wf
 
 /-! ## 6. the hypotheses are satisfiable and checkable -/
 
 /-- the invariant as an executable test (run on every sampled position by the `wfb` op) -/
-theorem wfBoardB_iff (p : Pos) : p.wfBoardB = true ↔ WFBoard p ∧ ReservesOK p :=
+theorem wfBoardB_iff (p : Pos) : p.wfBoardB = true ↔ WFBoard p :=
   Roads.wfBoardB_iff p
 
 /-- start positions are well-formed -/
@@ -179,11 +181,11 @@ theorem fromSquares_wf (basis : Array W) (cfg : Cfg) (board : List (List Nat)) (
     (h : Pos.fromSquares basis cfg board move = .ok p) : RoadWF p :=
   Roads.fromSquares_roadWF basis cfg board move p h
 
-/-- … so `GameOver()` on every constructed position whose reserve bytes did not wrap is the rule book's verdict -/
+/-- … so `WinDetails()` on every constructed position is the rule book's verdict -/
 theorem constructed_gameOver (basis : Array W) (cfg : Cfg) (board : List (List Nat)) (move : Int) (p : Pos)
-    (h : Pos.fromSquares basis cfg board move = .ok p) (hr : ReservesOK p) :
+    (h : Pos.fromSquares basis cfg board move = .ok p) :
     toOutcome p.winDetails = Spec.outcome (Spec.abs p) :=
-  Roads.winDetails_refines p (Roads.fromSquares_roadWF basis cfg board move p h) hr
+  Roads.winDetails_refines p (Roads.fromSquares_roadWF basis cfg board move p h)
 
 /-- the full invariant implies the part the theorems use -/
 theorem wfBoard_roadWF (p : Pos) (wf : WFBoard p) : RoadWF p := wf.toRoadWF
@@ -207,13 +209,13 @@ def exBoard (size : Nat) (white black standing caps : W) (move : Int) (ws wc bs 
 /-- 5×5: a bent white road a1-a2-b2-c2-c3-d3-e3 with a capstone on c2, a black wall on b3 -/
 def ex5 : Pos := exBoard 5 0x70e1#64 0x800#64 0x800#64 0x80#64 14 10 0 10 1
 
-example : WFBoard ex5 ∧ ReservesOK ex5 := (wfBoardB_iff _).mp (by decide)
+example : WFBoard ex5 := (wfBoardB_iff _).mp (by decide)
 example : ex5.winDetails = ⟨true, .road, .white, 6, 0⟩ := by decide
 
 /-- 8×8 with a white road up column h (bits 7, 15, …, 63) and a black road up column a: a double road -/
 def ex8 : Pos := exBoard 8 0x8080808080808080#64 0x0101010101010101#64 0#64 0#64 31 10 1 10 1
 
-example : WFBoard ex8 ∧ ReservesOK ex8 := (wfBoardB_iff _).mp (by decide)
+example : WFBoard ex8 := (wfBoardB_iff _).mp (by decide)
 -- Black to move (ply 31), so White just moved and wins the double road
 example : ex8.winDetails = ⟨true, .road, .white, 8, 8⟩ := by decide
 
@@ -221,7 +223,7 @@ example : ex8.winDetails = ⟨true, .road, .white, 8, 8⟩ := by decide
 with the capstone gone too → over on flats (2 : 1) -/
 def ex3 (wc : Nat) : Pos := exBoard 3 0b000000011#64 0b100000000#64 0#64 0#64 20 0 wc 5 0
 
-example : WFBoard (ex3 1) ∧ ReservesOK (ex3 1) := (wfBoardB_iff _).mp (by decide)
+example : WFBoard (ex3 1) := (wfBoardB_iff _).mp (by decide)
 example : (ex3 1).winDetails = ⟨false, .flats, .none, 2, 1⟩ := by decide
 example : (ex3 0).winDetails = ⟨true, .flats, .white, 2, 1⟩ := by decide
 example : (ex3 0).resultFromGame.toOption = some "F-0" ∧ ex8.resultFromGame.toOption = some "R-0" ∧
